@@ -76,7 +76,40 @@ def generate():
         for sub in ast.walk(g):
             if isinstance(sub, ast.Call) and norm(sub.func) == 'ChildSa':
                 acq = sorted((k.arg, norm(k.value)) for k in sub.keywords)
-    facts = {'create_sa_params': params, 'locals': locals_, 'swap': swap, 'calls': [c[1] for c in calls], 'deletes': [d[1] for d in dels],
+    # policies: the three create_policy calls of create_policies, the index expression, start-up and shutdown sequences
+    pol_params = [a.arg for a in xf['Xfrm.create_policy'].args.args[1:]] if 'Xfrm.create_policy' in xf else []
+    pol_calls, pol_locals, index_expr = [], [], ''
+    g = xf.get('Xfrm.create_policies')
+    if g is not None:
+        for sub in ast.walk(g):
+            if isinstance(sub, ast.Assign) and isinstance(sub.targets[0], ast.Name):
+                if sub.targets[0].id == 'index':
+                    index_expr = norm(sub.value)
+                else:
+                    pol_locals.append((sub.targets[0].id, norm(sub.value)))
+            if isinstance(sub, ast.Call) and norm(sub.func) == 'cls.create_policy':
+                pol_calls.append((sub.lineno, [norm(a) for a in sub.args] + ['%s=%s' % (k.arg, norm(k.value)) for k in sub.keywords]))
+        pol_calls.sort()
+    else:
+        problems.append('Xfrm.create_policies not found')
+    ct, _ = load('ikesacontroller')
+    cf = dict(functions(ct))
+
+    def xfrm_calls(qual):
+        h = cf.get(qual)
+        out = []
+        for sub in ast.walk(h) if h else []:
+            if isinstance(sub, ast.Call) and norm(sub.func).startswith('xfrm.Xfrm.'):
+                out.append((sub.lineno, norm(sub.func).split('.')[-1]))
+        return [n for _, n in sorted(out)]
+    startup, shutdown = xfrm_calls('IkeSaController.__init__'), xfrm_calls('IkeSaController.close')
+    acq_index = ''
+    h = cf.get('IkeSaController.process_acquire')
+    for sub in ast.walk(h) if h else []:
+        if isinstance(sub, ast.Call) and norm(sub.func) == 'ike_sa.process_acquire':
+            acq_index = norm(sub.args[2]) if len(sub.args) > 2 else ''
+    facts = {'policy_params': pol_params, 'policy_calls': [c[1] for c in pol_calls], 'policy_locals': pol_locals, 'policy_index': index_expr,
+             'startup': startup, 'shutdown': shutdown, 'acquire_index': acq_index, 'create_sa_params': params, 'locals': locals_, 'swap': swap, 'calls': [c[1] for c in calls], 'deletes': [d[1] for d in dels],
              'responder_child': resp, 'initiator_replace': init, 'role_flags': role_flags, 'acquire_child': acq}
 
     def pairs(l):
@@ -98,5 +131,11 @@ def generate():
     text += 'def acquireChild : List (String × String) := %s\n' % pairs(acq)
     text += 'def roleFlagInitiator : List String := %s\n' % strs(role_flags.get('initiator', []))
     text += 'def roleFlagResponder : List String := %s\n' % strs(role_flags.get('responder', []))
+    text += 'def policyParams : List String := %s\n' % strs(pol_params)
+    text += 'def policyCalls : List (List String) := %s\n' % lean_list([strs(c[1]) for c in pol_calls])
+    text += 'def policyLocals : List (String × String) := %s\n' % pairs(pol_locals)
+    text += 'def policyIndex : String := %s\n' % lean_str(index_expr)
+    text += 'def startup : List String := %s\ndef shutdown : List String := %s\n' % (strs(startup), strs(shutdown))
+    text += 'def acquireIndex : String := %s\n' % lean_str(acq_index)
     text += '\nend PyIkev2.Gen.Calls\n'
     return 'Calls', text, facts, problems
